@@ -11,7 +11,7 @@
      (MD5Checker.check_modified unpacks a float, MD5Checker.get_state indexes a float): the model
      makes that an explicit outcome ([None] of [check_modified], [GSCrash], status [Crash],
      save outcome [SaveCrash]) instead of hiding it.
-   * [ver] selects the code version.  [current] is the code in /repo (HEAD, after the three `fix:`
+   * [ver] selects the code version.  [current] is the code in /repo (HEAD, after the four `fix:`
      commits this model led to); [legacy] is the code before them, kept so that the defects
      stay stated (Properties/C03.v, Properties/C10.v, `..._legacy_refuted`) next to the theorems about
      the current code:
@@ -22,7 +22,18 @@
               dependency that is not in the saved 'deps:' list is listed in `changed` whatever state
               an older execution left for it (save_success never drops the entries of files that
               left file_dep), `or (previous_set is not None and dep not in previous_set)`.
-   Line numbers refer to doit/dependency.py at HEAD (with the repair fixC). *)
+       fixL (the `fix:` commit on DependencyStatus.add_reason / set_reason): the status of a
+              DependencyStatus is decided by the FIRST reason handed to add_reason / set_reason --
+              the point where get_log=False stops -- and later reasons are only logged (`_final`);
+              the two log-only entries 'added_file_dep' / 'removed_file_dep' are written without
+              deciding anything.  Before it every call assigned `self.status`, so that with
+              get_log=True (`info`) the LAST reason won: a changed file_dep after a missing one turned
+              'error' into 'run', a missing file_dep after a false uptodate item / missing target /
+              ... turned 'run' into 'error' (Properties/C20.v, C20_info_agrees_legacy_refuted).
+              Only the accumulate-all mode is concerned: with get_log=False both versions are the
+              same function (StatusP.get_status_nolog_fixL_irrelevant).
+   Line numbers refer to doit/dependency.py with the repair fixC, before fixL (which adds 9 lines to
+   DependencyStatus and 2 to get_status: add 9 resp. 11 for the file at HEAD). *)
 From DoitV Require Export Base.
 Open Scope Z_scope.
 
@@ -38,9 +49,9 @@ Definition ck_z (c : ck) : Z := match c with MD5 => 1 | TS => 2 end.
 (* state saved per file: MD5Checker (timestamp, size, md5) | TimestampChecker mtime *)
 Inductive fstate := MD5state (m s : Z) (d : N) | TSstate (m : Z).
 
-Record ver := { fixA : bool; fixB : bool; fixC : bool }.
-Definition current : ver := {| fixA := true; fixB := true; fixC := true |}.
-Definition legacy : ver := {| fixA := false; fixB := false; fixC := false |}.
+Record ver := { fixA : bool; fixB : bool; fixC : bool; fixL : bool }.
+Definition current : ver := {| fixA := true; fixB := true; fixC := true; fixL := true |}.
+Definition legacy : ver := {| fixA := false; fixB := false; fixC := false; fixL := false |}.
 
 (* ---- task values: dict str -> int|None, keys coded as numbers ---- *)
 Definition vals := list (N * option N).
@@ -294,6 +305,20 @@ Definition evaluated (l : list (option bool)) : list bool :=
   flat_map (fun x => match x with Some b => [b] | None => [] end) l.
 Definition diff (a b : list file) : list file := filter (fun x => negb (mem x b)) a.
 
+(* DependencyStatus.status after the loop and the final `set_reason('changed_file_dep', changed)` (720-722).
+   [decided_before]: add_reason / set_reason was called before the loop (uptodate_false, has_no_dependencies,
+   missing_target, checker_changed: all 'run'); [before_loop]: the status when the loop is entered.
+   legacy: every add_reason / set_reason call assigns the status, the last one wins (the final
+   'changed_file_dep' after the 'missing_file_dep' of the loop).
+   fixL: the first call decides (`_final`): the ones before the loop, then the first missing file_dep of the
+   loop ('error'), then 'changed_file_dep' ('run'); the dep-set comparison only assigns 'run' without deciding.
+   With get_log=False nothing was decided before the loop and [missing] is empty: the same value in both. *)
+Definition final_status (decided_before : bool) (before_loop : status) (changed missing : list file) : status :=
+  if fixL v
+  then (if decided_before then Run else if negb (is_nil missing) then Error
+        else if negb (is_nil changed) then Run else before_loop)
+  else (if negb (is_nil changed) then Run else if negb (is_nil missing) then Error else before_loop).
+
 Definition get_status (c : ck) (fs : fsys) (d : db) (t : name) (df : tdef) (get_log : bool) : gs_result :=
   let ev := map (eval_utd d t) (uptodate df) in
   let falses := false_positions ev 0 in
@@ -330,7 +355,7 @@ Definition get_status (c : ck) (fs : fsys) (d : db) (t : name) (df : tdef) (get_
   | FLCrash => {| g_status := Crash; g_changed := changed_so_far; g_reasons := rs0; g_db := d1 |}
   | FLError f => {| g_status := Error; g_changed := changed_so_far; g_reasons := rs0; g_db := d1 |}
   | FLDone changed missing =>
-      let st := if negb (is_nil changed) then Run else if negb (is_nil missing) then Error else before_loop in
+      let st := final_status (utd_false || nodeps || target_missing || ck_changed) before_loop changed missing in
       let rs := if get_log then
                   {| rs_uptodate_false := falses; rs_no_deps := nodeps; rs_missing_target := missing_t;
                      rs_checker_changed := if ck_changed then match prev_ck with Some p => Some (p, c) | None => None end else None;
